@@ -35,8 +35,8 @@ pub type PApp = App<
     FailingDistribution,
 >;
 
-pub const ACCOUNTS: [&str; 9] = [
-    "tr1", "tr2", "tr3", "liq", "owner", "pauser", "stranger", "newowner", "drv",
+pub const ACCOUNTS: [&str; 10] = [
+    "tr1", "tr2", "tr3", "liq", "owner", "pauser", "stranger", "newowner", "drv", "sfx",
 ];
 pub const TRADERS: [&str; 4] = ["tr1", "tr2", "tr3", "liq"];
 pub const START_TIME: u64 = 100_000;
@@ -112,7 +112,7 @@ impl World {
             .with_block(block)
             .build(|router, _api, storage| {
                 if native {
-                    for t in TRADERS.iter() {
+                    for t in TRADERS.iter().chain(["sfx"].iter()) {
                         router
                             .bank
                             .inner
@@ -210,7 +210,7 @@ impl World {
 
         // collateral token (always deployed; used only when !native)
         let mut init_bal: Vec<Cw20Coin> = vec![];
-        for t in TRADERS.iter() {
+        for t in TRADERS.iter().chain(["sfx"].iter()) {
             init_bal.push(Cw20Coin {
                 address: addr[*t].clone(),
                 amount: u(trader_bal),
@@ -367,7 +367,7 @@ impl World {
             }
             let allow = geti(dep, "allowance", 1_000_000_000);
             if allow > 0 {
-                for t in TRADERS.iter() {
+                for t in TRADERS.iter().chain(["sfx"].iter()) {
                     app.execute_contract(
                         Addr::unchecked(addr[*t].clone()),
                         token.clone(),
@@ -548,7 +548,11 @@ impl World {
         }
     }
 
+    /// name -> address; "name+suffix" resolves the name and appends the suffix (malformed addresses)
     pub fn a(&self, name: &str) -> String {
+        if let Some((n, suffix)) = name.split_once('+') {
+            return format!("{}{}", self.a(n), suffix);
+        }
         self.addr.get(name).cloned().unwrap_or_else(|| name.to_string())
     }
 
@@ -921,6 +925,9 @@ pub fn trader_addrs() -> BTreeMap<String, String> {
     addr.insert("tr2".into(), format!("{}tr2", prefix));
     addr.insert("tr3".into(), format!("{}tr3", prefix));
     addr.insert("liq".into(), "cosmwasm1liquidatorqqqqqqqqqqqqqqqqqqqqqqqqq".into());
+    // "sfx": an account whose address is tr1's address without its first two bytes ("co"), so that
+    // (vamm + "co", sfx) and (vamm, tr1) concatenate to the same byte string
+    addr.insert("sfx".into(), "smwasm1trader1qqqqqqqqqqqqqqqqqqqqqqqqqqqqqq".into());
     addr
 }
 
